@@ -55,6 +55,21 @@ def snapshot(p):
 
 
 def gen_template(rng):
+    if rng.random() < 0.25:
+        # a tdm template: p-arrays passed by name next to template parameters and an ordinary array
+        lines = ["name t", "version 1.0", "type tdm (temporal_modes=%d)" % rng.randint(1, 3), "",
+                 "float array p0 =\n    1, 2.5", "float array p1 =\n    3, 4", "float array W =\n    0.5, 0.25"]
+        pars = rng.sample(["a", "b", "phi"], rng.randint(1, 2))
+        forms = ["Sgate(p0, %s) | 1", "Rgate(%s) | 0", "BSgate(p1, %s) | [0, 1]", "MeasureHomodyne(phi=p0, x=%s) | 0", "Dgate(W, %s) | 1"]
+        used = set()
+        for i in range(rng.randint(2, 5)):
+            q = rng.choice(pars)
+            used.add(q)
+            lines.append(rng.choice(forms) % (rng.choice(["{%s}", "2 * {%s} + 1", "{%s} / 4"]) % q))
+        for q in pars:
+            if q not in used:
+                lines.append("Rgate({%s}) | 0" % q)
+        return "\n".join(lines) + "\n", pars
     lines = [H.rstrip("\n")]
     if rng.random() < 0.5:
         lines.append("target dev (shots=%d)" % rng.randint(1, 9))
@@ -62,7 +77,7 @@ def gen_template(rng):
     if rng.random() < 0.5:
         lines.append("float array A =\n    1.5, 2\n    3, 4.25")
     n = rng.randint(1, 5)
-    pars = rng.sample(["a", "b", "phi", "ab"], rng.randint(1, 3))
+    pars = rng.sample(["a", "b", "phi", "ab", "y", "lambda", "I", "val"], rng.randint(1, 3))
     for i in range(n):
         form = rng.choice(["Sgate(%s) | %d", "Dgate(0.5, %s) | [%d, 3]", "Rgate(x=%s) | %d", "BSgate(%s, l=[1, 2]) | %d"])
         p = rng.choice(pars)
@@ -115,6 +130,7 @@ def run_sequence(rng, impl, text, pars):
     t = impl.loads(text)
     snap_t = snapshot(t)
     instances = []
+    inst_snaps = []
     returned = []
     calls = []
     for step in range(rng.randint(2, 7)):
@@ -129,6 +145,7 @@ def run_sequence(rng, impl, text, pars):
                 vals = {p: rng.choice([0.25, 1.5, 2, -0.75, 3.125]) for p in pars}
                 inst = t(**vals)
                 instances.append(inst)
+                inst_snaps.append(snapshot(inst))
             elif op == "digraph":
                 returned.append(to_DiGraph(t))
                 if instances:
@@ -147,6 +164,12 @@ def run_sequence(rng, impl, text, pars):
         if now[0] != snap_t[0] or now[1] != snap_t[1]:
             what = "serialisation" if now[0] != snap_t[0] else "content"
             return "the %s of the template changed after %s (calls so far: %s)" % (what, op, calls), calls
+        # ... and so is every program handed to a read-only operation (instances are arguments of dumps/to_DiGraph/match_template)
+        for k, (i, before) in enumerate(zip(instances, inst_snaps)):
+            cur = snapshot(i)
+            if cur[0] != before[0] or cur[1] != before[1]:
+                what = "serialisation" if cur[0] != before[0] else "content"
+                return "the %s of instance %d changed after %s (calls so far: %s)" % (what, k, op, calls), calls
     # instances are independent of the template and of each other
     snaps = [snapshot(i) for i in instances]
     for a in range(len(instances)):
